@@ -240,7 +240,13 @@ def run(F, rep):
     c09.empty_rules(F, rep, "C01")     # "empty delta = copy of the reference" is only sound if the encoder emits it for equal segments only
     c09.pred_rules(F, rep, "C01")
     c09.back_rules(F, rep, "C01")
-    c09.roll_rules(F, rep, "C01")      # a stale rolling key code lets the encoder emit a match over symbols it never compared      # the LZ encoder's backward-extension budget: a delta that decodes short breaks the round trip
+    c09.roll_rules(F, rep, "C01")
+    c09.nrun_rules(F, rep, "C01")      # symbols swallowed into an N-run come back as N
+    # (PACK) reference segments of LZ groups are stored tuple-packed: the packer must invert on every alphabet (C12-TP4)
+    if getattr(F, "cfg", "dev") == "dev":
+        from rules import c12
+        if F.funcs.get(c12.TP + "bytes_to_tuples") and F.funcs.get(c12.TP + "tuples_to_bytes"):
+            c12.tp4_rule(F, rep, "C01-PACK", want=("rt",))      # a stale rolling key code lets the encoder emit a match over symbols it never compared      # the LZ encoder's backward-extension budget: a delta that decodes short breaks the round trip
 
 
 GROW = re.compile(r"Vec::<T, A>::(push|insert|extend\w*|append)$")
